@@ -292,4 +292,24 @@ def runSegs (pol : NamespacePolicy) (fuel : Nat) (m : MState) : List (Tid × Nat
 def runSegments (pol : NamespacePolicy) (fuel : Nat) (n : Nat) (m : MState) (segs : List (Tid × Nat)) : MState :=
   (finishOrder n segs).foldl (fun m t => runToEnd pol t fuel m) (runSegs pol fuel m segs)
 
+/-! ## hold schedules (driver query `H`; py/verif/props/c16_worker.py)
+
+Every thread is started in turn and runs until it is about to call its host function `gate` (where the real thread
+blocks) or is finished; then the held threads are released in the order `release`, each running to its end before the
+next one is released; finally whatever is left runs to its end. -/
+
+/-- run thread `t` until it is about to call the host function `gate` (or is finished) -/
+def runToGate (pol : NamespacePolicy) (t : Tid) : Nat → MState → MState
+  | 0, m => m
+  | f + 1, m =>
+    let ts := m.threads t
+    if ts.out.isSome then m else
+    match ts.ctl with
+    | .hostCall g _ => if g = "gate" then m else runToGate pol t f (stepThread pol t m)
+    | _ => runToGate pol t f (stepThread pol t m)
+
+def runHold (pol : NamespacePolicy) (fuel : Nat) (n : Nat) (m : MState) (release : List Tid) : MState :=
+  (release ++ List.range n).foldl (fun m t => runToEnd pol t fuel m)
+    ((List.range n).foldl (fun m t => runToGate pol t fuel m) m)
+
 end Cel.Runtime
